@@ -786,6 +786,11 @@ class Mailbox:
         #
         self.executing_tasks = []
         while True:
+            # The command we have taken off the queue and not yet let through.
+            # Whatever makes us leave or restart the loop, the task waiting
+            # for it has to be told, or it waits until its command times out.
+            #
+            imap_cmd = None
             try:
                 # Block until we have an IMAP Command that wants to run on this
                 # mailbox.
@@ -872,8 +877,13 @@ class Mailbox:
                     "mbox: '%s', mailbox deleted exiting management task",
                     self.name,
                 )
+                self._release_waiting_command(
+                    imap_cmd,
+                    NoSuchMailbox(f"Mailbox '{self.name}' has been deleted"),
+                )
                 return
             except RuntimeError as e:
+                self._release_waiting_command(imap_cmd, e)
                 if "Event loop is closed" in str(e):
                     return
                 self.logger.exception(
@@ -883,6 +893,9 @@ class Mailbox:
                 )
                 return
             except asyncio.CancelledError:
+                # shutdown() has set `deleted`: the command will see that.
+                #
+                self._release_waiting_command(imap_cmd, None)
                 return
             except Exception as e:
                 # We ignore all other exceptions because otherwise the
@@ -894,6 +907,25 @@ class Mailbox:
                     self.name,
                     e,
                 )
+                self._release_waiting_command(imap_cmd, e)
+
+    ####################################################################
+    #
+    @staticmethod
+    def _release_waiting_command(
+        imap_cmd: IMAPClientCommand | None, exc: Exception | None
+    ) -> None:
+        """
+        The management task is giving up on a command it took off the queue
+        before letting it through. Wake the task that is waiting for it in
+        `ready_and_okay()`, which raises `exc` (if given) instead of running
+        the command.
+        """
+        if imap_cmd is None or imap_cmd.ready.is_set():
+            return
+        if exc is not None and imap_cmd.error is None:
+            imap_cmd.error = exc
+        imap_cmd.ready.set()
 
     ####################################################################
     #
